@@ -520,19 +520,23 @@ pub struct Gen<'a> {
     pub rng: &'a mut Rng,
     pub prop: &'a str,
     counter: usize,
+    /// nesting depth of subninja files being generated
+    in_subninja: usize,
+    /// rule names redeclared inside a subninja file (ambiguous afterwards: dropped from use)
+    shadowed: Vec<String>,
 }
 
-const NAME_POOL: [&str; 14] = ["a", "b.o", "src/x.c", "dir/sub/y", "é", "日本.txt", "sp ace", "co:lon", "do$lar", "with-dash_1", "../up/f", "./dot/g", "a//b", "q/../r"];
+const NAME_POOL: [&str; 17] = ["a", "b.o", "src/x.c", "dir/sub/y", "é", "日本.txt", "sp ace", "co:lon", "do$lar", "with-dash_1", "../up/f", "./dot/g", "a//b", "q/../r", "w\\in\\x", "w\\.\\y", "m/ix\\ed"];
 const VAR_NAMES: [&str; 7] = ["a", "b", "flags", "dir", "x_1", "v.dot", "opt-level"];
 
 impl<'a> Gen<'a> {
     pub fn new(rng: &'a mut Rng, prop: &'a str) -> Gen<'a> {
-        Gen { rng, prop, counter: 0 }
+        Gen { rng, prop, counter: 0, in_subninja: 0, shadowed: Vec::new() }
     }
 
     fn fresh_out(&mut self) -> Ev {
         self.counter += 1;
-        let deco = *self.rng.pick(&["", "", "o/", "sp ace/", "é/", "c:/", "$/"]);
+        let deco = *self.rng.pick(&["", "", "o/", "sp ace/", "é/", "c:/", "$/", "bs\\"]);
         let mut parts = vec![Part::Lit(format!("{}out{}", deco.replace('$', "do$lar"), self.counter))];
         if self.rng.chance(1, 5) {
             parts.insert(0, Part::Ref("dir".into()));
@@ -619,7 +623,13 @@ impl<'a> Gen<'a> {
                 }
                 1 | 2 => {
                     self.counter += 1;
-                    let name = format!("r{}{}", self.counter, self.rng.pick(&["", ".x", "-y", "_z"]));
+                    let mut name = format!("r{}{}", self.counter, self.rng.pick(&["", ".x", "-y", "_z"]));
+                    // inside a subninja file a rule may reuse a name known from outside (it is that file's
+                    // own rule from then on; callers forget the name once the file ends)
+                    if self.in_subninja > 0 && !rules.is_empty() && self.rng.chance(1, 3) {
+                        name = self.rng.pick(rules).clone();
+                        self.shadowed.push(name.clone());
+                    }
                     let mut binds = vec![("command".to_string(), {
                         let mut c = self.value(true);
                         c.insert(0, Part::Lit(format!("run{} ", self.counter)));
@@ -714,13 +724,20 @@ impl<'a> Gen<'a> {
                         let fname = format!("{}{}", idx, fname).replace("sub/", "");
                         am.files.push((fname, vec![]));
                         let n = self.rng.range(1, 5);
+                        if !as_include {
+                            self.in_subninja += 1;
+                        }
                         let child = self.file_stmts(am, depth + 1, rules, outs, n);
                         am.files[idx].1 = child;
                         if as_include {
                             v.push(Stmt::Include(idx));
                         } else {
-                            // rules defined inside a subninja are not relied upon afterwards
+                            self.in_subninja -= 1;
+                            // rules defined inside a subninja are not relied upon afterwards,
+                            // and names it redeclared are no longer used either
                             rules.truncate(rules_before);
+                            let sh = std::mem::take(&mut self.shadowed);
+                            rules.retain(|r| !sh.contains(r));
                             v.push(Stmt::Subninja(idx));
                         }
                     }
